@@ -198,6 +198,11 @@ def run(ck, ctx):
         for e in unk:
             if e.kind == "mcall-unknown" and e.data.get("name") in ("log", "rule"):
                 continue
+            if e.kind == "unsupported" and (e.data.get("body_calls") == "pure" or
+                                            e.data.get("what") == "break-in-opaque-loop"):
+                # a loop that is summarised instead of unrolled: its body was evaluated once (opaque loop) or calls
+                # only builtins / container methods - nothing in it can write a file
+                continue
             ck.ob("R17.3", f"call outside the modelled set below compute() at {e.where()} (could write files)", None,
                   e.node, e.funcs()[-1] if e.funcs() else "?", f"{e.kind}: {e.data.get('callee') or e.data.get('name')}")
     ck.guard(r173, "R17.3")
